@@ -45,7 +45,8 @@ StaleDefinerConflict(sd) ==
          ab == {sd.dup[i][2], sd.dup[i][3]}
      \* (after the failure the failed plan's products, old definer included, are detached)
      IN /\ w \in Keys(sd.state)
-        /\ \E c \in ab : /\ sd.state.nodes[w].creator = c
+        \* (w itself may have been detached on its own since, which forgets its owner)
+        /\ \E c \in ab : /\ sd.state.nodes[w].creator \in {c, NULL}
                           /\ c \in Keys(sd.state) /\ sd.state.nodes[c].sstate = "PENDING"
                           /\ \E f \in ab \ {c} : f \in Keys(sd.state) /\ sd.state.nodes[f].sstate = "FAILED"
 
